@@ -241,7 +241,7 @@ def badBody (fx : Fixes) (env : Env) (a : AuthIn) (r : Req) : Bool :=
   | .accessGet => decide (a = .disabled) && !fx.accessGetNoAuthStructured                     -- empty body
   | .status => !fx.statusWritesJson                                                           -- empty body
   | .noRoute => !fx.noRouteStructured                                                         -- text/plain
-  | .redirectSlash _ => !(fx.trailingSlashRedirectOff && fx.noRouteStructured)                -- text/html or text/plain
+  | .redirectSlash _ => !(fx.trailingSlashRedirectOff && fx.noRouteStructured)                -- text/html, empty or text/plain
   | _ => false
 
 /-- requests answered 4xx without a single `{code, message}` document -/
